@@ -12,7 +12,7 @@ for pid in args:
         d = f"{src}/seed_{x}.diff"
         if not os.path.exists(d):
             print("missing", d); continue
-        letter = x if rnd == 1 else chr(ord(x) + 2 * (rnd - 1))
+        letter = chr(ord(x) + 2 * (rnd - 1))
         dst = f"/verif/seeded/{pid}-{letter}"
         os.makedirs(dst, exist_ok=True)
         shutil.copy(d, f"{dst}/patch.diff")
